@@ -295,6 +295,64 @@ func genDetached(ctx *Ctx, emit func(Case)) {
 				}})
 		}
 		verify("det.verify.genuine", "genuine", sig, msg, true)
+		// the streaming signer under a Write split (incl. closed without any Write)
+		if how := writeSplit(r, len(msg)); how != "" || k < 2 {
+			if k < 2 {
+				how = " w=-1"
+			}
+			l2 := line + how
+			o2 := goExec(l2)
+			emit(Case{Stream: "det.sign.stream", Line: l2, GoOut: o2, Branch: fmt.Sprintf("v%d/%s/%s", major, sizeClass(len(msg)), howClass(how)),
+				Direct: func() string {
+					if o2 != out {
+						return fmt.Sprintf("streaming and all-at-once detached signing disagree: version=%d message_len=%d writes%s: stream %s vs one-shot %s", major, len(msg), how, trunc(o2, 100), trunc(out, 100))
+					}
+					return ""
+				}})
+		}
+		// the message given as a reader: every way a legal io.Reader may deliver
+		// it (fragments, empty reads, the last bytes together with io.EOF), and a
+		// reader that delivers an *extended / shortened* message the same ways
+		verifyR := func(stream, label, form string, m []byte, scr string, wantOK bool) {
+			l := fmt.Sprintf("sig.verifydetachedr %s known std %s %s", form, keys.Hex(sig), scr)
+			o := goExec(l)
+			emit(Case{Stream: stream, Line: l, GoOut: o, Cmp: resCmp, Branch: fmt.Sprintf("v%d/%s/%s/%s", major, form, label, resClass(o)),
+				Direct: func() string {
+					if wantOK && (resClass(o) != "ok" || !strings.Contains(o, "signer="+keys.Hex(sigPub(signer)))) {
+						return fmt.Sprintf("a genuine detached signature does not verify when the message (%x) comes from a reader delivering %s: %s -> %s", m, label, trunc(l, 400), o)
+					}
+					if !wantOK && resClass(o) == "ok" {
+						return fmt.Sprintf("a detached signature over %x verifies against a different message delivered by a reader (%s): %s", msg, label, trunc(l, 600))
+					}
+					return ""
+				}})
+		}
+		for _, form := range []string{"b", "a"} {
+			for _, sh := range readerShapes(r, msg) {
+				verifyR("det.verify.reader", sh.label, form, msg, sh.script, true)
+			}
+			ext := append(append([]byte(nil), msg...), r.Bytes(1+r.Intn(3))...)
+			for _, sh := range readerShapes(r, ext) {
+				verifyR("det.verify.reader.altered", "ext-"+sh.label, form, ext, sh.script, false)
+			}
+			if len(msg) > 0 {
+				for _, sh := range readerShapes(r, msg[:len(msg)-1]) {
+					verifyR("det.verify.reader.altered", "trunc-"+sh.label, form, msg[:len(msg)-1], sh.script, false)
+				}
+			}
+			// a reader that fails: never a successful verification
+			for _, scr := range []string{keys.Hex(msg) + "!", "-!", hexOrDash(msg) + ",-!"} {
+				l := fmt.Sprintf("sig.verifydetachedr %s known std %s %s", form, keys.Hex(sig), scr)
+				o := goExec(l)
+				emit(Case{Stream: "det.verify.reader.fault", Line: l, GoOut: o, Cmp: resCmp, Branch: fmt.Sprintf("v%d/%s/%s", major, form, resClass(o)),
+					Direct: func() string {
+						if resClass(o) == "ok" {
+							return "a detached verification succeeds although the message reader failed: " + trunc(l, 400)
+						}
+						return ""
+					}})
+			}
+		}
 		// every single-bit change of the message (small) / sampled
 		for i := 0; i < len(msg)*8 && i < ctx.N(64, 4096); i++ {
 			m := append([]byte(nil), msg...)
@@ -373,3 +431,35 @@ func genDetached(ctx *Ctx, emit func(Case)) {
 
 // silence unused
 var _ = saltpack.Version1
+
+func hexOrDash(b []byte) string {
+	if len(b) == 0 {
+		return "-"
+	}
+	return keys.Hex(b)
+}
+
+// readerShapes: scripts of the ways a legal io.Reader may deliver m
+func readerShapes(r *prng.R, m []byte) []struct{ label, script string } {
+	type sh = struct{ label, script string }
+	out := []sh{
+		{"all-then-eof", hexOrDash(m) + ",-$"},
+		{"all-with-eof", hexOrDash(m) + "$"},
+		{"all-no-eof-entry", hexOrDash(m)},
+	}
+	if len(m) >= 2 {
+		k := 1 + r.Intn(len(m)-1)
+		out = append(out,
+			sh{"tail-with-eof", keys.Hex(m[:k]) + "," + keys.Hex(m[k:]) + "$"},
+			sh{"empty-reads", "-," + keys.Hex(m[:k]) + ",-,-," + keys.Hex(m[k:]) + ",-,-$"},
+			sh{"last-byte-with-eof", keys.Hex(m[:len(m)-1]) + "," + keys.Hex(m[len(m)-1:]) + "$"})
+		var parts []string
+		for _, b := range m {
+			parts = append(parts, keys.Hex([]byte{b}))
+		}
+		if len(parts) <= 64 {
+			out = append(out, sh{"bytewise-last-with-eof", strings.Join(parts, ",") + "$"})
+		}
+	}
+	return out
+}
